@@ -63,6 +63,8 @@ seeded_txt = "\n".join(seeded)
 extra = P + 'seeded_notes.md'
 if os.path.exists(extra):
     seeded_txt += "\n\n" + open(extra).read()
+nfixed=sum(1 for x in k if x['status']=='fixed'); nknown=sum(1 for x in k if x['status']=='known'); ncommits=len({x['commit'] for x in k if x['status']=='fixed'})
+main = main.replace('NFIXED', str(nfixed)).replace('NKNOWN', str(nknown)).replace('NCOMMITS', str(ncommits))
 out = main.replace('SEC1', open(P + 'sec1.md').read().rstrip()).replace('FINDINGS', findings).replace('SEC6', open(P + 'sec6.md').read().rstrip()) \
           .replace('SEEDED', seeded_txt).replace('APPA', open(P + 'appA.md').read().rstrip())
 open(V + '/DESIGN.md', 'w').write(out + "\n")
